@@ -1,6 +1,691 @@
-//! C19 harnesses (see /verif/kani/README.md for conventions)
+//! C19: random sampling respects its range, is pure rejection sampling, and is width-independent.
+//!
+//! The RNG is modelled *in the harness* ([`SymRng`]): a finite stream of K symbolic 64-bit words handed out in
+//! order through the real `rand_core::RngCore` interface (`TryRngCore` comes through rand_core's blanket impl).
+//!   * `next_u64`  = the next fresh word
+//!   * `next_u32`  = the low half of the next fresh word
+//!   * `fill_bytes`= every chunk of <= 8 destination bytes takes the little-endian bytes of one fresh word
+//!                   (truncated) -- i.e. `rand_core::impls::fill_bytes_via_next` for the two definitions above.
+//! When the K words are used up the RNG sets `exhausted` and hands out `fallback` (a value every sampler
+//! accepts), so all sampling loops terminate; harnesses `s.assume(!rng.exhausted)` *after* the call, which restricts
+//! the claim to streams for which a candidate is accepted within K draws.
+//!
+//! Bounds: Limb, U64, U128 (I64 for random_bits), BoxedUint of 64/128 bits; K = 4 words for rejection sampling
+//! (0..=3 rejections), every modulus, every bit_length in 0..=BITS+1. Uniformity itself is a statistical statement and
+//! is not checked here; what is checked is that the result is *exactly* the first in-range masked candidate, which
+//! is what makes the sampler unbiased for a uniform stream.
 use crate::*;
+use crate::util::*;
 use crypto_bigint::*;
+use crypto_bigint::rand_core::{CryptoRng, RngCore, TryRngCore};
+use core::convert::Infallible;
+
+/// Vacuity guard with its own source location: `Src::cover` funnels every cover through one `kani::cover!` site,
+/// which Kani reports as a single property (satisfied when *any* of them is reachable). Under Kani this macro puts
+/// the cover at the call site so each one is reported separately; natively it is `s.cover(..)`.
+#[macro_export]
+macro_rules! cov {
+    ($s:ident, $c:expr) => {{
+        #[cfg(kani)]
+        { let _ = &$s; kani::cover!($c); }
+        #[cfg(not(kani))]
+        { $s.cover($c); }
+    }};
+}
+
+/// Copies the first min(8, dest.len() - i) bytes of `w` to `dest[i..]`; written without a loop so that the unwinding
+/// bound of a harness is governed by the sampling loops only (a global bound of 10 for this copy made CBMC unwind
+/// every rejection loop ten times as well).
+fn put_chunk(dest: &mut [u8], i: usize, w: &[u8; 8]) -> usize {
+    let n = if dest.len() - i < 8 { dest.len() - i } else { 8 };
+    if n > 0 { dest[i] = w[0]; }
+    if n > 1 { dest[i + 1] = w[1]; }
+    if n > 2 { dest[i + 2] = w[2]; }
+    if n > 3 { dest[i + 3] = w[3]; }
+    if n > 4 { dest[i + 4] = w[4]; }
+    if n > 5 { dest[i + 5] = w[5]; }
+    if n > 6 { dest[i + 6] = w[6]; }
+    if n > 7 { dest[i + 7] = w[7]; }
+    n
+}
+
+/// Finite symbolic word stream behind the real `RngCore` trait.
+pub struct SymRng<const K: usize> {
+    pub words: [u64; K],
+    /// number of words handed out so far (keeps counting after exhaustion)
+    pub pos: usize,
+    /// handed out once the K words are used up
+    pub fallback: u64,
+    pub exhausted: bool,
+}
+impl<const K: usize> SymRng<K> {
+    pub fn new(words: [u64; K], fallback: u64) -> Self { Self { words, pos: 0, fallback, exhausted: false } }
+    fn next_word(&mut self) -> u64 {
+        let w = if self.pos < K { self.words[self.pos] } else { self.exhausted = true; self.fallback };
+        self.pos += 1;
+        w
+    }
+}
+impl<const K: usize> RngCore for SymRng<K> {
+    fn next_u32(&mut self) -> u32 { self.next_word() as u32 }
+    fn next_u64(&mut self) -> u64 { self.next_word() }
+    fn fill_bytes(&mut self, dest: &mut [u8]) {
+        let mut i = 0;
+        while i < dest.len() {
+            let w = self.next_word().to_le_bytes();
+            i += put_chunk(dest, i, &w);
+        }
+    }
+}
+impl<const K: usize> CryptoRng for SymRng<K> {}
+
+/// Same stream, but fallible: the draw after the K-th word fails (checks `?` propagation in the `try_` forms).
+pub struct SymTryRng<const K: usize> { pub words: [u64; K], pub pos: usize }
+#[derive(Debug, Clone, Copy, PartialEq, Eq)]
+pub struct Exhausted;
+impl core::fmt::Display for Exhausted {
+    fn fmt(&self, f: &mut core::fmt::Formatter<'_>) -> core::fmt::Result { f.write_str("exhausted") }
+}
+impl core::error::Error for Exhausted {}
+impl<const K: usize> SymTryRng<K> {
+    fn next_word(&mut self) -> Result<u64, Exhausted> {
+        if self.pos < K { let w = self.words[self.pos]; self.pos += 1; Ok(w) } else { Err(Exhausted) }
+    }
+}
+impl<const K: usize> TryRngCore for SymTryRng<K> {
+    type Error = Exhausted;
+    fn try_next_u32(&mut self) -> Result<u32, Exhausted> { Ok(self.next_word()? as u32) }
+    fn try_next_u64(&mut self) -> Result<u64, Exhausted> { self.next_word() }
+    fn try_fill_bytes(&mut self, dest: &mut [u8]) -> Result<(), Exhausted> {
+        let mut i = 0;
+        while i < dest.len() {
+            let w = self.next_word()?.to_le_bytes();
+            i += put_chunk(dest, i, &w);
+        }
+        Ok(())
+    }
+}
+
+/// 2^bits - 1 for bits in 0..=64
+fn mask64(bits: u32) -> u64 { if bits == 0 { 0 } else { u64::MAX >> (64 - bits) } }
+/// 2^bits - 1 for bits in 0..=128
+fn mask128(bits: u32) -> u128 { if bits == 0 { 0 } else { u128::MAX >> (128 - bits) } }
+fn bits64(m: u64) -> u32 { 64 - m.leading_zeros() }
+
+/// Reference: pure rejection sampling below a single-word modulus.
+/// Candidates are the stream words masked to bits(m), in stream order; returns (value, words consumed, rejections).
+fn oracle_mod64<const K: usize>(words: &[u64; K], m: u64) -> Option<(u64, usize, usize)> {
+    let mask = mask64(bits64(m));
+    let mut i = 0;
+    while i < K {
+        let c = words[i] & mask;
+        if c < m { return Some((c, i + 1, i)); }
+        i += 1;
+    }
+    None
+}
+
+/// Reference for moduli of one or two words: a candidate is `hi` (masked to the bit length of the modulus' top
+/// word) followed -- for two-word moduli -- by the low word; a candidate whose top word already exceeds the
+/// modulus' top word is rejected before its low word is drawn.  (value, words consumed, rejections)
+fn oracle_mod128<const K: usize>(words: &[u64; K], m: u128) -> Option<(u128, usize, usize)> {
+    let hi_m = (m >> 64) as u64;
+    let two = hi_m != 0;
+    let mask = if two { mask64(bits64(hi_m)) } else { mask64(bits64(m as u64)) };
+    let mut pos = 0;
+    let mut rej = 0;
+    while pos < K {
+        let hi = words[pos] & mask;
+        pos += 1;
+        let cand: u128;
+        if two {
+            if hi > hi_m { rej += 1; continue; }
+            if pos >= K { return None; }
+            cand = ((hi as u128) << 64) | words[pos] as u128;
+            pos += 1;
+        } else {
+            cand = hi as u128;
+        }
+        if cand < m { return Some((cand, pos, rej)); }
+        rej += 1;
+    }
+    None
+}
+
+fn boxed_u128(b: &BoxedUint) -> u128 {
+    let w = b.as_words();
+    let mut v: u128 = 0;
+    if w.len() > 0 { v |= w[0] as u128; }
+    if w.len() > 1 { v |= (w[1] as u128) << 64; }
+    v
+}
+
+fn random_mod_limb_case<S: Src, const K: usize>(s: &mut S) {
+    let words: [u64; K] = s.words();
+    let m = s.u64();
+    s.assume(m != 0);
+    let nz = NonZero::new(Limb(m)).unwrap();
+    let mut rng = SymRng::new(words, 0);
+    let r = Limb::random_mod(&mut rng, &nz).0;
+    s.assume(!rng.exhausted);
+    assert!(r < m);
+    let o = oracle_mod64(&words, m);
+    assert!(o.is_some());
+    let (v, used, rej) = o.unwrap();
+    assert!(r == v);
+    assert!(rng.pos == used);
+    cov!(s, rej == 0);
+    cov!(s, rej == 1);
+    cov!(s, rej + 1 == K);
+    cov!(s, m == 1 && r == 0);
+    cov!(s, m == u64::MAX && rej == 1);
+}
+
+fn random_mod_boxed128_case<S: Src, const K: usize>(s: &mut S) {
+    let words: [u64; K] = s.words();
+    let m = s.u128();
+    s.assume(m != 0);
+    let mut rng_f = SymRng::new(words, 0);
+    let f = u128_of(&U128::random_mod(&mut rng_f, &NonZero::new(mk128(m)).unwrap()));
+    let nzb = NonZero::new(BoxedUint::from_words([m as u64, (m >> 64) as u64])).unwrap();
+    let mut rng_b = SymRng::new(words, 0);
+    let b = BoxedUint::random_mod(&mut rng_b, &nzb);
+    s.assume(!rng_f.exhausted);
+    assert!(!rng_b.exhausted);
+    assert!(b.nlimbs() == 2);
+    assert!(boxed_u128(&b) == f);
+    assert!(rng_b.pos == rng_f.pos);
+    assert!(f < m);
+    cov!(s, m >> 64 == 0 && rng_f.pos == 1);
+    cov!(s, m >> 64 == 0 && rng_f.pos == K);
+    cov!(s, m >> 64 != 0 && rng_f.pos == 2);
+    cov!(s, m >> 64 != 0 && rng_f.pos == K);
+}
 
 harnesses! {
+    // ------------------------------------------------------------------ random_mod
+    /// U64::random_mod / try_random_mod: result < modulus, equals the first masked stream word below the modulus,
+    /// consumes exactly the rejected prefix + 1 words. Every modulus, every 4-word stream that accepts.
+    #[kani::unwind(6)]
+    fn c19_random_mod_u64(s) {
+        let words: [u64; 4] = s.words();
+        let m = s.u64();
+        s.assume(m != 0);
+        let nz = NonZero::new(mk64(m)).unwrap();
+        let mut rng = SymRng::new(words, 0);
+        let r = u64_of(&U64::random_mod(&mut rng, &nz));
+        let mut rng2 = SymRng::new(words, 0);
+        let r2 = U64::try_random_mod(&mut rng2, &nz);
+        s.assume(!rng.exhausted);
+        assert!(r < m);
+        let o = oracle_mod64(&words, m);
+        assert!(o.is_some());
+        let (v, used, rej) = o.unwrap();
+        assert!(r == v);
+        assert!(rng.pos == used);
+        assert!(!rng2.exhausted && rng2.pos == used);
+        match r2 { Ok(x) => assert!(u64_of(&x) == v), Err(_) => assert!(false) }
+        cov!(s, rej == 0);
+        cov!(s, rej == 1);
+        cov!(s, rej == 2);
+        cov!(s, rej == 3);
+        cov!(s, rej == 2 && words[0] & mask64(bits64(m)) == m && r == m - 1);
+    }
+
+    /// Limb::random_mod (byte-wise sampler): same contract and, under the word-stream model, the same candidates.
+    /// Quick tier: 4-word streams (0..=3 rejections) ...
+    #[kani::unwind(6)]
+    fn c19_random_mod_limb(s) { random_mod_limb_case::<_, 4>(s); }
+    /// ... thorough tier: 6-word streams (0..=5 rejections).
+    #[kani::unwind(8)]
+    fn c19t_random_mod_limb(s) { random_mod_limb_case::<_, 6>(s); }
+
+    /// U128::random_mod with one- and two-word moduli: top word first (masked, early rejection when it exceeds the
+    /// modulus' top word), then the low word; first candidate < modulus wins.
+    #[kani::unwind(6)]
+    fn c19_random_mod_u128(s) {
+        let words: [u64; 4] = s.words();
+        let m = s.u128();
+        s.assume(m != 0);
+        let nz = NonZero::new(mk128(m)).unwrap();
+        let mut rng = SymRng::new(words, 0);
+        let r = u128_of(&U128::random_mod(&mut rng, &nz));
+        s.assume(!rng.exhausted);
+        assert!(r < m);
+        let o = oracle_mod128(&words, m);
+        assert!(o.is_some());
+        let (v, used, rej) = o.unwrap();
+        assert!(r == v);
+        assert!(rng.pos == used);
+        cov!(s, rej == 0 && m >> 64 != 0);
+        cov!(s, rej == 1 && m >> 64 != 0);
+        cov!(s, rej == 2 && m >> 64 != 0);
+        cov!(s, rej == 1 && m >> 64 == 0);
+        // top word equal to the modulus' top word, accepted resp. rejected on the low word
+        cov!(s, m >> 64 != 0 && (r >> 64) == (m >> 64) && rej == 0);
+        cov!(s, m >> 64 != 0 && rej == 1 && used == 4);
+    }
+
+    /// try_random_mod with a fallible RNG: Ok exactly when a candidate is accepted within the K words,
+    /// otherwise the RNG error is returned (no panic, no spinning).
+    #[kani::unwind(5)]
+    fn c19_try_random_mod_err_u64(s) {
+        let words: [u64; 3] = s.words();
+        let m = s.u64();
+        s.assume(m != 0);
+        let nz = NonZero::new(mk64(m)).unwrap();
+        let mut rng = SymTryRng::<3> { words, pos: 0 };
+        let r = U64::try_random_mod(&mut rng, &nz);
+        let o = oracle_mod64(&words, m);
+        match r {
+            Ok(x) => { assert!(o.is_some()); let (v, used, _) = o.unwrap(); assert!(u64_of(&x) == v && rng.pos == used); }
+            Err(e) => { assert!(o.is_none()); assert!(e == Exhausted); }
+        }
+        cov!(s, o.is_none());
+        cov!(s, o.is_some());
+    }
+
+    /// BoxedUint::random_mod at 64 bits == U64::random_mod: same value, same stream consumption, same precision.
+    /// 3-word streams.
+    #[kani::unwind(5)]
+    fn c19_random_mod_boxed64_eq_fixed(s) {
+        let words: [u64; 3] = s.words();
+        let m = s.u64();
+        s.assume(m != 0);
+        let mut rng_f = SymRng::new(words, 0);
+        let f = u64_of(&U64::random_mod(&mut rng_f, &NonZero::new(mk64(m)).unwrap()));
+        let nzb = NonZero::new(BoxedUint::from_words([m])).unwrap();
+        let mut rng_b = SymRng::new(words, 0);
+        let b = BoxedUint::random_mod(&mut rng_b, &nzb);
+        s.assume(!rng_f.exhausted);
+        assert!(!rng_b.exhausted);
+        assert!(b.nlimbs() == 1);
+        assert!(b.as_words()[0] == f);
+        assert!(rng_b.pos == rng_f.pos);
+        assert!(f < m);
+        cov!(s, rng_f.pos == 3);
+        cov!(s, rng_f.pos == 1);
+    }
+
+    /// BoxedUint::random_mod at 128 bits == U128::random_mod (one- and two-word moduli: zero top word incl.).
+    /// Quick tier: 3-word streams ...
+    #[kani::unwind(5)]
+    fn c19_random_mod_boxed128_eq_fixed(s) { random_mod_boxed128_case::<_, 3>(s); }
+    /// ... thorough tier: 6-word streams.
+    #[kani::unwind(8)]
+    fn c19t_random_mod_boxed128_eq_fixed(s) { random_mod_boxed128_case::<_, 6>(s); }
+
+    // ------------------------------------------------------------------ random_bits
+    /// U64::try_random_bits(bit_length) for bit_length 0..=65: Err(BitLengthTooLarge) iff bit_length > 64;
+    /// Ok(v): v < 2^bit_length, v = first stream word masked to bit_length bits, one word consumed (none for 0).
+    #[kani::unwind(5)]
+    fn c19_random_bits_u64(s) {
+        let words: [u64; 2] = s.words();
+        let bl = s.u32();
+        s.assume(bl <= 65);
+        let mut rng = SymRng::new(words, 0);
+        let r = U64::try_random_bits(&mut rng, bl);
+        match r {
+            Ok(v) => {
+                assert!(bl <= 64);
+                let v = u64_of(&v);
+                assert!(bl == 64 || v < (1u64 << bl));
+                assert!(v == words[0] & mask64(bl));
+                assert!(rng.pos == if bl == 0 { 0 } else { 1 });
+            }
+            Err(RandomBitsError::BitLengthTooLarge { bit_length, bits_precision }) => {
+                assert!(bl > 64);
+                assert!(bit_length == bl && bits_precision == 64);
+                assert!(rng.pos == 0);
+            }
+            Err(_) => assert!(false),
+        }
+        assert!(!rng.exhausted);
+        cov!(s, bl == 0);
+        cov!(s, bl == 1);
+        cov!(s, bl == 32);
+        cov!(s, bl == 33);
+        cov!(s, bl == 64);
+        cov!(s, bl == 65);
+    }
+
+    /// random_bits (panicking wrapper) returns the same value for admissible lengths.
+    #[kani::unwind(5)]
+    fn c19_random_bits_wrapper_u64(s) {
+        let words: [u64; 2] = s.words();
+        let bl = s.u32();
+        s.assume(bl <= 64);
+        let mut rng = SymRng::new(words, 0);
+        let v = u64_of(&U64::random_bits(&mut rng, bl));
+        assert!(v == words[0] & mask64(bl));
+        let mut rng2 = SymRng::new(words, 0);
+        let w = u64_of(&U64::random_bits_with_precision(&mut rng2, bl, 64));
+        assert!(w == v && rng.pos == rng2.pos);
+    }
+
+    /// random_bits panics (documented: "panics on error") when bit_length > BITS.
+    #[kani::should_panic]
+    #[kani::unwind(5)]
+    fn c19_random_bits_too_large_panics_u64(s) {
+        let words: [u64; 2] = s.words();
+        let bl = s.u32();
+        s.assume(bl > 64);
+        let mut rng = SymRng::new(words, 0);
+        let _ = U64::random_bits(&mut rng, bl);
+    }
+
+    /// U128::try_random_bits for bit_length 0..=129: low word first, partial top word masked; words consumed = ceil(bl/64).
+    #[kani::unwind(5)]
+    fn c19_random_bits_u128(s) {
+        let words: [u64; 3] = s.words();
+        let bl = s.u32();
+        s.assume(bl <= 129);
+        let mut rng = SymRng::new(words, 0);
+        let r = U128::try_random_bits(&mut rng, bl);
+        match r {
+            Ok(v) => {
+                assert!(bl <= 128);
+                let v = u128_of(&v);
+                assert!(bl == 128 || v < (1u128 << bl));
+                let stream = words[0] as u128 | ((words[1] as u128) << 64);
+                assert!(v == stream & mask128(bl));
+                assert!(rng.pos == ((bl + 63) / 64) as usize);
+            }
+            Err(RandomBitsError::BitLengthTooLarge { bit_length, bits_precision }) => {
+                assert!(bl > 128);
+                assert!(bit_length == bl && bits_precision == 128);
+                assert!(rng.pos == 0);
+            }
+            Err(_) => assert!(false),
+        }
+        assert!(!rng.exhausted);
+        cov!(s, bl == 0);
+        cov!(s, bl == 64);
+        cov!(s, bl == 65);
+        cov!(s, bl == 96);
+        cov!(s, bl == 97);
+        cov!(s, bl == 128);
+        cov!(s, bl == 129);
+    }
+
+    /// Int: I64::try_random_bits has the contract of the underlying Uint (bit pattern below 2^bit_length).
+    #[kani::unwind(5)]
+    fn c19_random_bits_i64(s) {
+        let words: [u64; 2] = s.words();
+        let bl = s.u32();
+        s.assume(bl <= 65);
+        let mut rng = SymRng::new(words, 0);
+        match I64::try_random_bits(&mut rng, bl) {
+            Ok(v) => {
+                assert!(bl <= 64);
+                assert!(v.as_uint().as_words()[0] == words[0] & mask64(bl));
+            }
+            Err(RandomBitsError::BitLengthTooLarge { bit_length, bits_precision }) => {
+                assert!(bl > 64 && bit_length == bl && bits_precision == 64);
+            }
+            Err(_) => assert!(false),
+        }
+    }
+
+    /// try_random_bits_with_precision on fixed types: BitsPrecisionMismatch {requested, BITS} iff bits_precision != BITS
+    /// (checked before the length); otherwise as try_random_bits. Nothing is drawn on error.
+    #[kani::unwind(5)]
+    fn c19_random_bits_with_precision_u64(s) {
+        let words: [u64; 2] = s.words();
+        let bl = s.u32();
+        let prec = s.u32();
+        let mut rng = SymRng::new(words, 0);
+        match U64::try_random_bits_with_precision(&mut rng, bl, prec) {
+            Ok(v) => {
+                assert!(prec == 64 && bl <= 64);
+                assert!(u64_of(&v) == words[0] & mask64(bl));
+            }
+            Err(RandomBitsError::BitsPrecisionMismatch { bits_precision, integer_bits }) => {
+                assert!(prec != 64);
+                assert!(bits_precision == prec && integer_bits == 64);
+                assert!(rng.pos == 0);
+            }
+            Err(RandomBitsError::BitLengthTooLarge { bit_length, bits_precision }) => {
+                assert!(prec == 64 && bl > 64);
+                assert!(bit_length == bl && bits_precision == 64);
+                assert!(rng.pos == 0);
+            }
+            Err(_) => assert!(false),
+        }
+        cov!(s, prec == 64 && bl <= 64);
+        cov!(s, prec == 128 && bl <= 64);
+        cov!(s, prec == 64 && bl > 64);
+        cov!(s, prec == 63);
+    }
+
+    #[kani::unwind(5)]
+    fn c19_random_bits_with_precision_u128(s) {
+        let words: [u64; 3] = s.words();
+        let bl = s.u32();
+        let prec = s.u32();
+        let mut rng = SymRng::new(words, 0);
+        match U128::try_random_bits_with_precision(&mut rng, bl, prec) {
+            Ok(v) => {
+                assert!(prec == 128 && bl <= 128);
+                let stream = words[0] as u128 | ((words[1] as u128) << 64);
+                assert!(u128_of(&v) == stream & mask128(bl));
+            }
+            Err(RandomBitsError::BitsPrecisionMismatch { bits_precision, integer_bits }) => {
+                assert!(prec != 128);
+                assert!(bits_precision == prec && integer_bits == 128);
+                assert!(rng.pos == 0);
+            }
+            Err(RandomBitsError::BitLengthTooLarge { bit_length, bits_precision }) => {
+                assert!(prec == 128 && bl > 128);
+                assert!(bit_length == bl && bits_precision == 128);
+                assert!(rng.pos == 0);
+            }
+            Err(_) => assert!(false),
+        }
+        cov!(s, prec == 128 && bl == 100);
+        cov!(s, prec == 64 && bl <= 64);
+    }
+
+    /// BoxedUint::try_random_bits_with_precision(bl, 64) == U64::try_random_bits(bl): same error condition
+    /// (bit_length > precision), same value, same consumption, precision as requested.
+    /// (The precision is a literal: a symbolic allocation size exhausts CBMC's memory.)
+    #[kani::unwind(5)]
+    fn c19_random_bits_boxed64_eq_fixed(s) {
+        let words: [u64; 2] = s.words();
+        let bl = s.u32();
+        s.assume(bl <= 65);
+        let mut rng_b = SymRng::new(words, 0);
+        let b = BoxedUint::try_random_bits_with_precision(&mut rng_b, bl, 64);
+        let mut rng_f = SymRng::new(words, 0);
+        let f = U64::try_random_bits(&mut rng_f, bl);
+        match b {
+            Ok(bv) => {
+                assert!(bl <= 64);
+                assert!(bv.bits_precision() == 64 && bv.nlimbs() == 1);
+                match f { Ok(fv) => assert!(bv.as_words()[0] == u64_of(&fv)), Err(_) => assert!(false) }
+                assert!(bl == 64 || bv.as_words()[0] < (1u64 << bl));
+                assert!(rng_b.pos == rng_f.pos);
+            }
+            Err(RandomBitsError::BitLengthTooLarge { bit_length, bits_precision }) => {
+                assert!(bl > 64);
+                assert!(bit_length == bl && bits_precision == 64);
+                assert!(f.is_err());
+                assert!(rng_b.pos == 0);
+            }
+            Err(_) => assert!(false),
+        }
+        cov!(s, bl == 64);
+        cov!(s, bl == 65);
+        cov!(s, bl == 0);
+    }
+
+    /// ... and at 128 bits against U128.
+    #[kani::unwind(5)]
+    fn c19_random_bits_boxed128_eq_fixed(s) {
+        let words: [u64; 3] = s.words();
+        let bl = s.u32();
+        s.assume(bl <= 129);
+        let mut rng_b = SymRng::new(words, 0);
+        let b = BoxedUint::try_random_bits_with_precision(&mut rng_b, bl, 128);
+        let mut rng_f = SymRng::new(words, 0);
+        let f = U128::try_random_bits(&mut rng_f, bl);
+        match b {
+            Ok(bv) => {
+                assert!(bl <= 128);
+                assert!(bv.bits_precision() == 128 && bv.nlimbs() == 2);
+                let v = boxed_u128(&bv);
+                match f { Ok(fv) => assert!(v == u128_of(&fv)), Err(_) => assert!(false) }
+                assert!(bl == 128 || v < (1u128 << bl));
+                assert!(rng_b.pos == rng_f.pos);
+            }
+            Err(RandomBitsError::BitLengthTooLarge { bit_length, bits_precision }) => {
+                assert!(bl > 128);
+                assert!(bit_length == bl && bits_precision == 128);
+                assert!(f.is_err());
+                assert!(rng_b.pos == 0);
+            }
+            Err(_) => assert!(false),
+        }
+        cov!(s, bl == 128);
+        cov!(s, bl == 70);
+        cov!(s, bl == 129);
+    }
+
+    /// BoxedUint::try_random_bits(bl) (precision = bl rounded up to whole limbs) for the literal lengths
+    /// 1,2,31,32,33,63,64,65,95,96,97,127,128: never fails, value < 2^bl and equal to U128::try_random_bits(bl)
+    /// on the same stream, identical consumption.
+    #[kani::unwind(5)]
+    fn c19_random_bits_boxed_auto_precision(s) {
+        let words: [u64; 3] = s.words();
+        let sel = s.u8();
+        s.assume(sel < 13);
+        fn one(words: [u64; 3], bl: u32) {
+            let mut rng_b = SymRng::new(words, 0);
+            let b = BoxedUint::try_random_bits(&mut rng_b, bl);
+            let mut rng_f = SymRng::new(words, 0);
+            let f = U128::try_random_bits(&mut rng_f, bl);
+            match (b, f) {
+                (Ok(bv), Ok(fv)) => {
+                    assert!(bv.nlimbs() == ((bl + 63) / 64) as usize);
+                    let v = boxed_u128(&bv);
+                    assert!(v == u128_of(&fv));
+                    assert!(bl == 128 || v < (1u128 << bl));
+                    assert!(rng_b.pos == rng_f.pos);
+                }
+                _ => assert!(false),
+            }
+        }
+        match sel {
+            0 => one(words, 1), 1 => one(words, 2), 2 => one(words, 31), 3 => one(words, 32), 4 => one(words, 33),
+            5 => one(words, 63), 6 => one(words, 64), 7 => one(words, 65), 8 => one(words, 95), 9 => one(words, 96),
+            10 => one(words, 97), 11 => one(words, 127), _ => one(words, 128),
+        }
+    }
+
+    /// BoxedUint::try_random_bits(rng, 0): Ok, value 0 (one zero limb: a BoxedUint never has no limbs), nothing drawn.
+    #[kani::unwind(6)]
+    fn c19_random_bits_boxed_zero_length(s) {
+        let words: [u64; 1] = s.words();
+        let mut rng = SymRng::new(words, 0);
+        match BoxedUint::try_random_bits(&mut rng, 0) {
+            Ok(v) => { assert!(bool::from(v.is_zero())); assert!(rng.pos == 0); assert!(v.nlimbs() == 1); }
+            Err(_) => assert!(false),
+        }
+    }
+
+    // ------------------------------------------------------------------ Random
+    /// Random for Limb / U64 / U128 / I128: the stream words in order, least significant limb first -- so a U128
+    /// consumes the stream exactly like two consecutive U64 draws (width independence).
+    #[kani::unwind(6)]
+    fn c19_random_uint_stream_order(s) {
+        let words: [u64; 2] = s.words();
+        let mut r1 = SymRng::new(words, 0);
+        let a = u128_of(&U128::random(&mut r1));
+        assert!(a == words[0] as u128 | ((words[1] as u128) << 64));
+        assert!(r1.pos == 2 && !r1.exhausted);
+        let mut r2 = SymRng::new(words, 0);
+        let lo = u64_of(&U64::random(&mut r2));
+        let hi = Limb::random(&mut r2).0;
+        assert!(lo == words[0] && hi == words[1] && r2.pos == 2);
+        let mut r3 = SymRng::new(words, 0);
+        let i = I128::random(&mut r3);
+        assert!(u128_of(i.as_uint()) == a && r3.pos == 2);
+    }
+
+    /// NonZero::<Limb|U64>::random: rejection of zero words; result != 0 and equal to the first non-zero word,
+    /// for every stream (incl. leading all-zero words) that has a non-zero word among the first 4.
+    #[kani::unwind(6)]
+    fn c19_nonzero_random_u64(s) {
+        let words: [u64; 4] = s.words();
+        let mut rng = SymRng::new(words, 1);
+        let r = u64_of(&NonZero::<U64>::random(&mut rng).get());
+        let mut rng_l = SymRng::new(words, 1);
+        let l = NonZero::<Limb>::random(&mut rng_l).get().0;
+        s.assume(!rng.exhausted);
+        assert!(r != 0);
+        assert!(l == r && rng_l.pos == rng.pos && !rng_l.exhausted);
+        let mut i = 0;
+        let mut first = 0u64;
+        let mut used = 0usize;
+        while i < 4 { if first == 0 && words[i] != 0 { first = words[i]; used = i + 1; } i += 1; }
+        assert!(r == first && rng.pos == used);
+        cov!(s, words[0] == 0 && words[1] == 0 && words[2] == 0 && r == 1);
+        cov!(s, words[0] != 0);
+    }
+
+    /// NonZero::<U128>::random: candidates are consecutive word pairs (low limb first); zero pairs are rejected.
+    #[kani::unwind(6)]
+    fn c19_nonzero_random_u128(s) {
+        let words: [u64; 4] = s.words();
+        let mut rng = SymRng::new(words, 1);
+        let r = u128_of(&NonZero::<U128>::random(&mut rng).get());
+        s.assume(!rng.exhausted);
+        assert!(r != 0);
+        let c0 = words[0] as u128 | ((words[1] as u128) << 64);
+        let c1 = words[2] as u128 | ((words[3] as u128) << 64);
+        if c0 != 0 { assert!(r == c0 && rng.pos == 2); } else { assert!(r == c1 && rng.pos == 4); }
+        cov!(s, c0 == 0);
+        cov!(s, c0 != 0 && words[0] == 0);
+    }
+
+    /// Odd::<U64|U128>::random: the stream value with bit 0 forced; odd for every stream incl. all-zero words.
+    #[kani::unwind(6)]
+    fn c19_odd_random_uint(s) {
+        let words: [u64; 2] = s.words();
+        let mut r1 = SymRng::new(words, 0);
+        let a = u64_of(&Odd::<U64>::random(&mut r1).get());
+        assert!(a & 1 == 1 && a == words[0] | 1 && r1.pos == 1);
+        let mut r2 = SymRng::new(words, 0);
+        let b = u128_of(&Odd::<U128>::random(&mut r2).get());
+        assert!(b & 1 == 1 && b == (words[0] as u128 | ((words[1] as u128) << 64)) | 1 && r2.pos == 2);
+        assert!(!r1.exhausted && !r2.exhausted);
+        cov!(s, words[0] == 0 && words[1] == 0 && b == 1);
+    }
+
+    /// Odd::<BoxedUint>::random(rng, bit_length) for the literal lengths 1,2,32,33,64,65,96,97,128: odd,
+    /// < 2^bit_length, equal to the fixed-width random_bits value with bit 0 forced.
+    #[kani::unwind(5)]
+    fn c19_odd_random_boxed(s) {
+        let words: [u64; 3] = s.words();
+        let sel = s.u8();
+        s.assume(sel < 9);
+        fn one(words: [u64; 3], bl: u32) -> u128 {
+            let mut rng = SymRng::new(words, 0);
+            let o = Odd::<BoxedUint>::random(&mut rng, bl);
+            let v = boxed_u128(o.as_ref());
+            assert!(v & 1 == 1);
+            assert!(bl == 128 || v < (1u128 << bl));
+            let stream = words[0] as u128 | ((words[1] as u128) << 64);
+            assert!(v == (stream & mask128(bl)) | 1);
+            assert!(o.as_ref().nlimbs() == ((bl + 63) / 64) as usize);
+            assert!(rng.pos == ((bl + 63) / 64) as usize);
+            v
+        }
+        let v = match sel {
+            0 => one(words, 1), 1 => one(words, 2), 2 => one(words, 32), 3 => one(words, 33), 4 => one(words, 64),
+            5 => one(words, 65), 6 => one(words, 96), 7 => one(words, 97), _ => one(words, 128),
+        };
+        cov!(s, sel == 0 && words[0] == 0 && v == 1);
+        cov!(s, sel == 5 && words[0] == 0 && words[1] == 0);
+    }
 }
